@@ -41,9 +41,11 @@ class Ctx:
         self.obs = {}
         self.notes = []
         self.consulted = set()
+        self.alias = {}        # rule-id renaming while a rule function of another property module is reused
 
     # ---- recording
     def add(self, rule, construct, verdict, what, fn=None, line=None, nontrivial=True, detail=""):
+        rule = self.alias.get(rule, rule)
         rule = self.prop + "." + rule if not rule.startswith("C") else rule
         file = None
         if fn is not None:
